@@ -162,9 +162,10 @@ func c11extAs(R string) RuleFunc {
 }
 
 // c02extpanic: calls into third-party code run under a recover.
-func c02extpanic(c *core.Ctx) {
-	const R = "C02.extpanic"
-	c.Rule(R, "every call from the module into a third-party package (neither the module nor the standard library: today github.com/lucasjones/reggen, the regex example generator) sits in a function that installs a deferred recover, so a panic raised inside that code (reggen panics with `invalid argument to Intn` on a character class without ASCII members) comes back as an error value. The module's own panic analysis cannot look inside such code")
+func c02extpanic(c *core.Ctx) { extPanicAs(c, "C02.extpanic") }
+
+func extPanicAs(c *core.Ctx, R string) {
+	c.Rule(R, "every call from the module into a third-party package (neither the module nor the standard library: today github.com/lucasjones/reggen, the regex example generator) sits in a function that installs a deferred recover that swallows EVERY value (it does not re-panic and does not go through panics.Handle, which re-panics non-error values), so a panic raised inside that code (reggen panics with `invalid argument to Intn` on a character class without ASCII members) comes back as an error value. The module's own panic analysis cannot look inside such code")
 	c.Floor(R, 1)
 	isStd := func(path string) bool {
 		first := strings.Split(path, "/")[0]
@@ -179,35 +180,29 @@ func c02extpanic(c *core.Ctx) {
 	}
 	sort.Slice(fs, func(i, j int) bool { return fs[i].String() < fs[j].String() })
 	for _, f := range fs {
+		// a TOTAL catcher: a deferred function that calls recover() and can neither re-panic itself nor
+		// hand the value to panics.Handle (which re-panics every value that is not an error - third-party
+		// code panics with strings)
 		hasRecover := false
-		for _, b := range f.Blocks {
-			for _, in := range b.Instrs {
-				if d, ok := in.(*ssa.Defer); ok {
-					if cl, ok := d.Call.Value.(*ssa.MakeClosure); ok {
-						if fn, ok := cl.Fn.(*ssa.Function); ok {
-							for _, bb := range fn.Blocks {
-								for _, i2 := range bb.Instrs {
-									if call, ok := i2.(*ssa.Call); ok {
-										if bi, ok := call.Call.Value.(*ssa.Builtin); ok && bi.Name() == "recover" {
-											hasRecover = true
-										}
-									}
-								}
-							}
+		for _, df := range core.DeferredFuncs(f) {
+			if df.Blocks == nil {
+				continue
+			}
+			rec, repanic := false, core.HasExplicitPanic(df)
+			for _, bb := range df.Blocks {
+				for _, i2 := range bb.Instrs {
+					if call, ok := i2.(*ssa.Call); ok {
+						if bi, ok := call.Call.Value.(*ssa.Builtin); ok && bi.Name() == "recover" {
+							rec = true
 						}
-					}
-					if fn, ok := d.Call.Value.(*ssa.Function); ok {
-						for _, bb := range fn.Blocks {
-							for _, i2 := range bb.Instrs {
-								if call, ok := i2.(*ssa.Call); ok {
-									if bi, ok := call.Call.Value.(*ssa.Builtin); ok && bi.Name() == "recover" {
-										hasRecover = true
-									}
-								}
-							}
+						if sc := call.Call.StaticCallee(); sc != nil && strings.HasSuffix(core.FuncName(sc), "panics.Handle") {
+							repanic = true
 						}
 					}
 				}
+			}
+			if rec && !repanic {
+				hasRecover = true
 			}
 		}
 		seen := map[string]bool{}
